@@ -47,6 +47,11 @@ CONSTANTS MaxPre, MaxN, PreAlphabet, Accs, Posts, FlowKinds, Drivers, Bufs,
 (***************************************************************************)
 (* Chains and the machine.                                                 *)
 (***************************************************************************)
+\* RunIf around flow-dependent inner sequences: all but the first value / the first value / reversed / all but the
+\* last / a callable and then the first value - of the one-value flow
+SkipFirst == <<Slice(1, None, 1)>>
+InnerSeqs == {RunIfSeq("lt2", SkipFirst), RunIfSeq("all", <<Slice(0, 1, 1)>>), RunIfSeq("even", <<Reverse>>),
+              RunIfSeq("all", <<LagK(1)>>), RunIfSeq("lt2", <<Map("inc"), Slice(0, 1, 1)>>), RunIfSeq("all", <<Reverse, LastK(1)>>)}
 AllSlices == {Slice(a, b, s) : a \in 0..3, b \in (0..3) \cup {None}, s \in 1..2}
 CtxSel == {CFilter("odd", "str"), CFilter("variable", "fn"), CFilter("t", "str"), CFilter("odd", "fn"),
            CRunIf("odd", "inc"), CRunIf("variable", "drop"), CRunIf("t", "dbl")}
@@ -54,12 +59,12 @@ AlphaQuick == CtxSel \cup {Map("tag"), Map("inc"), Map("var"), Filter("even"), F
                Slice(0, 0, 1), RunIf("even", "inc"), RunIf("lt2", "drop")}
 AlphaMid == AlphaQuick \cup {Map("dbl"), Map("tag"), Filter("lt2"), Slice(2, 3, 1), Slice(0, 3, 2), Slice(3, None, 1),
                              RunIf("all", "dbl")}
-AlphaFull == AlphaMid \cup AllSlices \cup {VarAttr("all"), RunIfDup("odd"), RunIfDup("variable"), VarAttr("run"), VarAttr("fill"), VarAttr("compute"), VarAttr("request"),
+AlphaFull == AlphaMid \cup AllSlices \cup InnerSeqs \cup {VarAttr("all"), RunIfDup("odd"), RunIfDup("variable"), VarAttr("run"), VarAttr("fill"), VarAttr("compute"), VarAttr("request"),
               VarAttr("fill_into"), Map("upd"), Filter("all"), RunIf("even", "drop")}
-AlphaSmall == {Map("inc"), VarAttr("all"), Filter("even"), Slice(0, 2, 1), Slice(1, 3, 2), RunIf("lt2", "drop"),
+AlphaSmall == {Map("inc"), VarAttr("all"), Filter("even"), Slice(0, 2, 1), Slice(1, 3, 2), RunIfSeq("lt2", SkipFirst),
                CFilter("odd", "str"), CFilter("variable", "fn"), RunIfDup("odd")}
-AlphaThorough == AlphaSmall \cup {CRunIf("odd", "inc"), Map("var"), VarAttr("fill"), Map("tag"), CFilter("t", "str")}
-AlphaDeep == {Map("inc"), Map("var"), Filter("even"), Slice(0, 2, 1), Slice(1, 3, 2), CFilter("odd", "str"), RunIfDup("odd")}
+AlphaThorough == AlphaSmall \cup {RunIf("lt2", "drop"), RunIfSeq("all", <<Slice(0, 1, 1)>>), CRunIf("odd", "inc"), Map("var"), VarAttr("fill"), Map("tag"), CFilter("t", "str")}
+AlphaDeep == {Map("inc"), Map("var"), Filter("even"), Slice(0, 2, 1), RunIfSeq("all", <<Slice(0, 1, 1)>>), CFilter("odd", "str"), RunIfDup("odd")}
 PostsSmall == {<<>>, <<Map("inc")>>, <<Sum>>}
 AccsSmall == {"sum", "store1"}
 BufQuick == {1, 2, 3, 1000, None}
